@@ -717,6 +717,41 @@ fn eval_strip(op: &str, f: &[&str]) -> CaseRec {
 
 // ───────────────────────────── dispatch ─────────────────────────────
 
+/// `unmodelled shellopt <mode> <hex option command>`: a test case switches a shell option on that makes bash itself
+/// write to stderr (`set -x`, `set -v`); what is recorded for it and for the next test case must be what ONE bash
+/// session writes for the same commands, nothing of scrut's own wrapper
+fn eval_shellopt(op: &str, f: &[&str]) -> CaseRec {
+    let mode = f[2];
+    let opt = String::from_utf8_lossy(&unhex(f[3])).to_string();
+    let exprs = [format!("{opt}; echo hi"), "echo second".to_string()];
+    let dir = case_dir();
+    let tcs: Vec<TestCase> = exprs.iter().map(|e| testcase(e, script_config(false, None, 80))).collect();
+    let res = run_real(mode, &tcs, dir.path());
+    // reference: one session, each command's stderr into its own file
+    let refdir = case_dir();
+    let script = format!("{{ {}\n}} 2>{d}/e0\n{{ {}\n}} 2>{d}/e1\n", exprs[0], exprs[1], d = refdir.path().display());
+    let _ = std::process::Command::new(BASH).arg("-c").arg(&script).current_dir(refdir.path()).stdout(std::process::Stdio::null()).stderr(std::process::Stdio::null()).status();
+    let want: Vec<Vec<u8>> = (0..2).map(|i| std::fs::read(refdir.path().join(format!("e{i}"))).unwrap_or_default()).collect();
+    let mut fails = vec![];
+    let class = if mode == "p" { "C13:shell-trace-of-scrut-wrapper" } else { "C13:shell-trace-breaks-script-dividers" };
+    match &res {
+        Ok(Ok(outs)) if outs.len() == 2 => {
+            for i in 0..2 {
+                let se: Vec<u8> = (&outs[i].stderr).into();
+                if se != want[i] {
+                    fails.push((class.to_string(), format!("after `{opt}`: test {i} has {} bytes on stderr ({:?}…), one session writes {:?}", se.len(), String::from_utf8_lossy(&se).chars().take(160).collect::<String>(), String::from_utf8_lossy(&want[i]))));
+                }
+                let so: Vec<u8> = (&outs[i].stdout).into();
+                if so != [b"hi\n".to_vec(), b"second\n".to_vec()][i] {
+                    fails.push(("C13:stdout-bytes".to_string(), format!("after `{opt}`: test {i} recorded stdout {:?}", String::from_utf8_lossy(&so))));
+                }
+            }
+        }
+        other => fails.push((class.to_string(), format!("after `{opt}`: {}", show_result(other).chars().take(200).collect::<String>()))),
+    }
+    CaseRec { op: op.to_string(), impl_out: "unmodelled".into(), oracle_fail: fails, nontrivial: true, tags: vec![format!("shellopt:mode={mode}"), format!("shellopt:{opt}")] }
+}
+
 fn eval_op(env: &Env, op: &str) -> CaseRec {
     let f: Vec<&str> = op.split(' ').collect();
     let r = std::panic::catch_unwind(std::panic::AssertUnwindSafe(|| match (f[0], f.len()) {
@@ -731,6 +766,7 @@ fn eval_op(env: &Env, op: &str) -> CaseRec {
         ("bash", 6) => eval_bash(op, &f),
         ("unmodelled", 8) if f[1] == "big" => eval_big(op, &f),
         ("unmodelled", 5) if f[1] == "strip" => eval_strip(op, &f),
+        ("unmodelled", 4) if f[1] == "shellopt" => eval_shellopt(op, &f),
         _ => bad(op),
     }));
     r.unwrap_or_else(|_| bad(op))
@@ -1085,6 +1121,12 @@ pub fn run(ctx: &Ctx, prop: &str) {
             }
         }
         par_stream(ctx, "bash-big", bigs.len() as u64, false, |idx| Some(eval_op(&env, &bigs[idx as usize])));
+        // shell options that make bash itself write to stderr; control: an option that does not
+        let sopts = ["set -x", "set -v", "set -u"];
+        par_stream(ctx, "bash-shell-trace-exhaustive", (sopts.len() * 2) as u64, true, |idx| {
+            let i = idx as usize;
+            Some(eval_op(&env, &format!("unmodelled shellopt {} {}", if i % 2 == 0 { "p" } else { "s" }, hex(sopts[i / 2].as_bytes()))))
+        });
         let ansi: Vec<Vec<u8>> = vec![
             b"x\x1b[1mbold\x1b[0m\n".to_vec(),
             b"plain text\n".to_vec(),
